@@ -1,12 +1,22 @@
 /-
   Property C13 — results never depend on how input or output streams are
   fragmented; bounded buffering.  Statements only; proofs in
-  Saltpack/Proofs/StreamLemmas.lean.
+  Saltpack/Proofs/StreamLemmas.lean, ChunkReaderAll.lean, ReceiverChunks.lean,
+  StateBounds.lean, ArmorWriter.lean, PunctAll.lean, ArmorStack*.lean.
 
-  What is proved here: the write side completely (the plaintext bufferer shared
-  by the three encoder streams, the BaseX encoder stream); the read side as
-  whole-stream theorems — the chunk reader (the `Read` side of all three
-  receivers), the punctuated reader, and the COMPLETE armor reader stack
+  What is proved here: the write side — the plaintext bufferer shared by the
+  three encoder streams (`C13_write_independent`), the BaseX encoder stream
+  (`C13_basex_encoder_independent`) and the armor encoder stream on top of it
+  (`armorEncoderStream`: BaseX encoder → spacer; `C13_armor_writer_independent`;
+  the state machine `ArmState` lives in Proofs/ArmorWriter.lean because
+  Model/Stream.lean has none, and is not driven by the correspondence — its
+  whole-text function `Armor.sealText` is); the read side as whole-stream
+  theorems — the chunk reader, INSTANTIATED for the three receivers
+  (`C13_decrypt_reads_any_size`, `C13_signcrypt_reads_any_size`,
+  `C13_verify_reads_any_size`: `getNextChunk` of each receiver as a function
+  `next`, and reading it through `chunkReader.Read` with any buffer schedule
+  gives exactly what the read-to-end functions `Decrypt.run` / `Signcrypt.run`
+  / `Sign.run` give), the punctuated reader, and the COMPLETE armor reader stack
   (punctuatedReader → framedDecoderStream → filteringReader → BaseX decoder):
   `C13_armor_stream_is_whole_text`: for every script that delivers a text `T` in
   any fragments (also the last one together with EOF) and every schedule of
@@ -25,9 +35,18 @@
   fragmentation (counterexample: `"h..f.!."` gives `punctuated` in one delivery
   and `trailingGarbage` byte by byte) — the property asks for the same *result*,
   and an error either way, which is what is proved.
+  Bounded buffering is stated as invariants of the reader and writer STATES,
+  true initially and preserved by every call on any input
+  (`C13_decoder_state_bounded` — the whole reader stack —,
+  `C13_punct_state_bounded`, `C13_framed_state_bounded`,
+  `C13_chunk_reader_one_chunk`; writers: `C13_writer_buffer_bounded`,
+  `C13_basex_encoder_bounded`, `C13_armor_writer_bounded`).
 -/
 import Saltpack.Proofs.StreamLemmas
 import Saltpack.Proofs.ChunkReaderAll
+import Saltpack.Proofs.ReceiverChunks
+import Saltpack.Proofs.StateBounds
+import Saltpack.Proofs.ArmorWriter
 import Saltpack.Proofs.PunctAll
 import Saltpack.Proofs.ArmorStack
 import Saltpack.Proofs.ArmorStackFaults
@@ -71,6 +90,33 @@ theorem C13_basex_encoder_bounded (s : EncState) (hb : 0 < s.enc.blockLen) (hs :
     (s.write p).2.2.buf.length < s.enc.blockLen :=
   encStream_bounded s hb hs p
 
+/-- **Armor encoder stream = whole-text armoring, whatever the write split**:
+    `armorEncoderStream` (armor.go) as the state machine `ArmState`
+    (Proofs/ArmorWriter.lean: `Write` = BaseX `encoder.Write` into a
+    `bytes.Buffer`, then `spaceAndOutputBuffer` — a space after every
+    `bytesPerWord` characters, a newline after every `wordsPerLine` words;
+    `Close` = `encoder.Close`, spacing, last word, pad, `". " ‖ footer ‖ ".\n"`).
+    For every split `ws` of the payload over `Write` calls (empty writes
+    included) the text left in the output after `Close` is `Armor.sealText` of
+    the concatenation — the function C11 opens again. -/
+theorem C13_armor_writer_independent (par : Armor.Params) (he : par.enc.WF) (hw : 0 < par.bytesPerWord)
+    (hdr ftr : Bytes) (ws : List Bytes) :
+    ((ws.foldl ArmState.write (ArmState.init par hdr ftr)).close).out = Armor.sealText par hdr ftr ws.flatten :=
+  armorWriter_any_split par he hw hdr ftr ws
+
+/-- …for the shipped `Armor62Params` and the frames of a message type -/
+theorem C13_armor62_writer_independent (typ : Int) (brand : Bytes) (ws : List Bytes) :
+    ((ws.foldl ArmState.write
+        (ArmState.init Armor.params62 (Armor.header typ brand) (Armor.footer typ brand))).close).out =
+      Armor.seal62 typ brand ws.flatten :=
+  armorWriter62_any_split typ brand ws
+
+/-- bounded buffering of the armor encoder stream: after every `Write` at most
+    one word (`bytesPerWord` characters) is held back, in ANY state -/
+theorem C13_armor_writer_bounded (s : ArmState) (hw : 0 < s.par.bytesPerWord) (b : Bytes) :
+    (s.write b).buf.length ≤ s.par.bytesPerWord :=
+  armorWriter_bounded s hw b
+
 /-- **Chunk reader**: every `Read` hands out a prefix of what is pending, never
     more than the caller's buffer, and leaves the rest: whatever buffer sizes the
     caller uses, the plaintext chunks are delivered exactly once, in order… -/
@@ -89,7 +135,7 @@ theorem C13_chunk_reader_terminal (cap : Nat) (s : CRState Source)
   crRead_terminal cap s hwf d x s' h
 
 /-- **Reading to the end with any buffer sizes** (chunkReader, generic in the
-    chunker — decrypt, verify and signcrypt-open all sit behind it): if the
+    chunker; instantiated for decrypt, verify and signcrypt-open below): if the
     chunker hands out the chunks `cs` and then the condition `e` (no chunk
     before the last is empty — an empty chunk without a condition is the
     panic case C15 excludes), then for every schedule of positive buffer sizes
@@ -119,6 +165,96 @@ theorem C13_chunk_reader_caps_independent {σ : Type} (next : σ → Bytes × Op
     (crReadAll next caps inner fuel 0 { chunker := σ0 } []).2.1 =
       (crReadAll next caps' inner' fuel' 0 { chunker := σ0 } []).2.1 :=
   crReadAll_caps_independent next σ0 n cs e htr hne caps caps' hcaps hcaps' inner inner' hi hi' fuel fuel' hf hf'
+
+/-- **The three receivers behind the chunk reader.**  `decNext P s` is
+    `decryptStream.getNextChunk` as a function on the state (remaining decoded
+    objects, what the decoder reports after them, sequence number, condition
+    already returned): `(nil, err)` for a read / authentication / chunk-state
+    error, `(chunk, assertEndOfStream)` for the final block, `(chunk, nil)`
+    otherwise.  Reading it through `chunkReader.Read` with ANY schedule of
+    positive buffer sizes releases exactly the bytes of the read-to-end
+    function `Decrypt.run` and then its condition (`none` ↔ `io.EOF`), and
+    leaves the reader terminal.  The hypothesis of `C13_chunk_reader_all` —
+    no empty chunk before the last — is DISCHARGED from `checkChunkState`
+    (V2 refuses empty non-final chunks, V1: empty ⇔ final; errors and the V1
+    panic branch are `(nil, err)` returns, not the reader's panic case). -/
+theorem C13_decrypt_reads_any_size (P : Prims) (s : Decrypt.State) (items : List (Option EncBlock)) (tail : Tail)
+    (seqno : Nat) (caps : List Nat) (hcaps : ∀ c ∈ caps, 0 < c) (inner : Nat) (hi : items.length + 2 ≤ inner)
+    (fuel : Nat) (hf : (Decrypt.run P s items tail seqno).bytes.length + 1 ≤ fuel) :
+    let r := crReadAll (decNext P s) caps inner fuel 0 { chunker := ⟨items, tail, seqno, none⟩ } []
+    r.1 = (Decrypt.run P s items tail seqno).bytes ∧
+    r.2.1 = some (toRErr (Decrypt.run P s items tail seqno).err) ∧
+    r.2.2.prevChunk = [] ∧
+    r.2.2.prevErr = some (toRErr (Decrypt.run P s items tail seqno).err) :=
+  decrypt_reads_any_size P s items tail seqno caps hcaps inner hi fuel hf
+
+theorem C13_signcrypt_reads_any_size (P : Prims) (s : Signcrypt.State) (items : List (Option SigncryptBlock))
+    (tail : Tail) (seqno : Nat) (caps : List Nat) (hcaps : ∀ c ∈ caps, 0 < c) (inner : Nat)
+    (hi : items.length + 2 ≤ inner)
+    (fuel : Nat) (hf : (Signcrypt.run P s items tail seqno).bytes.length + 1 ≤ fuel) :
+    let r := crReadAll (scNext P s) caps inner fuel 0 { chunker := ⟨items, tail, seqno, none⟩ } []
+    r.1 = (Signcrypt.run P s items tail seqno).bytes ∧
+    r.2.1 = some (toRErr (Signcrypt.run P s items tail seqno).err) ∧
+    r.2.2.prevChunk = [] ∧
+    r.2.2.prevErr = some (toRErr (Signcrypt.run P s items tail seqno).err) :=
+  signcrypt_reads_any_size P s items tail seqno caps hcaps inner hi fuel hf
+
+theorem C13_verify_reads_any_size (P : Prims) (s : Sign.State) (items : List (Option SigBlock)) (tail : Tail)
+    (seqno : Nat) (caps : List Nat) (hcaps : ∀ c ∈ caps, 0 < c) (inner : Nat) (hi : items.length + 2 ≤ inner)
+    (fuel : Nat) (hf : (Sign.run P s items tail seqno).bytes.length + 1 ≤ fuel) :
+    let r := crReadAll (verNext P s) caps inner fuel 0 { chunker := ⟨items, tail, seqno, none⟩ } []
+    r.1 = (Sign.run P s items tail seqno).bytes ∧
+    r.2.1 = some (toRErr (Sign.run P s items tail seqno).err) ∧
+    r.2.2.prevChunk = [] ∧
+    r.2.2.prevErr = some (toRErr (Sign.run P s items tail seqno).err) :=
+  verify_reads_any_size P s items tail seqno caps hcaps inner hi fuel hf
+
+/-- …at the level of the entry points: what `NewDecryptStream` + `Read`s with
+    any buffer sizes release is `openStream`'s `released`, then its `err` -/
+theorem C13_decrypt_open_reads_any_size (P : Prims) (valid : Validator) (kr : Keyring) (hb : Bytes) (h : EncHeader)
+    (ps : PStream EncBlock) (log : List KeyCall) (st : Decrypt.State)
+    (hh : Decrypt.processHeader P valid kr (P.hash hb) h = (log, .ok st))
+    (caps : List Nat) (hcaps : ∀ c ∈ caps, 0 < c) (inner : Nat) (hi : ps.items.length + 2 ≤ inner)
+    (fuel : Nat) (hf : (Decrypt.openStream P valid kr (.ok hb h) ps).released.length + 1 ≤ fuel) :
+    let R := Decrypt.openStream P valid kr (.ok hb h) ps
+    let r := crReadAll (decNext P st) caps inner fuel 0 { chunker := ⟨ps.items, ps.tail, 1, none⟩ } []
+    r.1 = R.released ∧ r.2.1 = some (toRErr R.err) ∧
+    r.2.2.prevChunk = [] ∧ r.2.2.prevErr = some (toRErr R.err) :=
+  decrypt_open_reads_any_size P valid kr hb h ps log st hh caps hcaps inner hi fuel hf
+
+theorem C13_signcrypt_open_reads_any_size (P : Prims) (kr : Keyring) (res : Signcrypt.Resolver) (hb : Bytes)
+    (h : EncHeader) (ps : PStream SigncryptBlock) (log : List KeyCall) (st : Signcrypt.State)
+    (hh : Signcrypt.processHeader P kr res (P.hash hb) h = (log, .ok st))
+    (caps : List Nat) (hcaps : ∀ c ∈ caps, 0 < c) (inner : Nat) (hi : ps.items.length + 2 ≤ inner)
+    (fuel : Nat) (hf : (Signcrypt.openStream P kr res (.ok hb h) ps).released.length + 1 ≤ fuel) :
+    let R := Signcrypt.openStream P kr res (.ok hb h) ps
+    let r := crReadAll (scNext P st) caps inner fuel 0 { chunker := ⟨ps.items, ps.tail, 1, none⟩ } []
+    r.1 = R.released ∧ r.2.1 = some (toRErr R.err) ∧
+    r.2.2.prevChunk = [] ∧ r.2.2.prevErr = some (toRErr R.err) :=
+  signcrypt_open_reads_any_size P kr res hb h ps log st hh caps hcaps inner hi fuel hf
+
+theorem C13_verify_stream_reads_any_size (P : Prims) (valid : Validator) (kr : Keyring) (hb : Bytes) (h : SigHeader)
+    (ps : PStream SigBlock) (pk : Bytes)
+    (hval : Sign.validate valid h mtAttached = .ok ())
+    (hpk : kr.lookupSigningPublicKey h.senderPublic = some pk)
+    (hv : h.version.major = 1 ∨ h.version.major = 2)
+    (caps : List Nat) (hcaps : ∀ c ∈ caps, 0 < c) (inner : Nat) (hi : ps.items.length + 2 ≤ inner)
+    (fuel : Nat) (hf : (Sign.verifyStream P valid kr (.ok hb h) ps).released.length + 1 ≤ fuel) :
+    let R := Sign.verifyStream P valid kr (.ok hb h) ps
+    let r := crReadAll (verNext P ⟨h.version, P.hash hb, pk⟩) caps inner fuel 0
+      { chunker := ⟨ps.items, ps.tail, 1, none⟩ } []
+    r.1 = R.released ∧ r.2.1 = some (toRErr R.err) ∧
+    r.2.2.prevChunk = [] ∧ r.2.2.prevErr = some (toRErr R.err) :=
+  verify_stream_reads_any_size P valid kr hb h ps pk hval hpk hv caps hcaps inner hi fuel hf
+
+/-- none of the three `getNextChunk`s ever returns the chunk reader's panic
+    case (empty chunk, nil error) -/
+theorem C13_receivers_never_panic_reader (P : Prims) :
+    (∀ (s : Decrypt.State) σ, (decNext P s σ).1 ≠ [] ∨ (decNext P s σ).2.1 ≠ none) ∧
+    (∀ (s : Signcrypt.State) σ, (scNext P s σ).1 ≠ [] ∨ (scNext P s σ).2.1 ≠ none) ∧
+    (∀ (s : Sign.State) σ, (verNext P s σ).1 ≠ [] ∨ (verNext P s σ).2.1 ≠ none) :=
+  ⟨fun s σ => rxNext_no_panic _ (decStep_nonfinal P s) σ, fun s σ => rxNext_no_panic _ (scStep_nonfinal P s) σ,
+   fun s σ => rxNext_no_panic _ (verStep_nonfinal P s) σ⟩
 
 /-- a reported condition (other than the model's marker for the Go panic) is
     reported again, with no data, by every later `Read` of any size -/
@@ -238,10 +374,86 @@ theorem C13_source_prefix (cap : Nat) (src : Source) :
     r.1.length ≤ cap ∧ srcData src = r.1 ++ (match r.2.1 with | some _ => [] | none => srcData r.2.2) :=
   srcRead_prefix cap src
 
-/-- **Bounded buffering (readers)**: the BaseX decoder holds at most its input
-    buffer and one scratch buffer, the punctuated reader one 4096-byte buffer,
-    frames are collected up to 8192 bytes (generated constants) -/
-theorem C13_reader_bounds : Armor.frameLim = 8192 ∧ dBufSize Gen.base62Std = 8192 * 32 := by decide
+/-! ## Bounded buffering (readers): invariants of the reader STATES, true of
+    the initial state and preserved by every `Read` call, whatever the input -/
+
+/-- **BaseX decoder stream** (and, inside `DBounded`, every layer below it):
+    a fresh decoder satisfies, and every `Read(p)` of any size preserves:
+    input buffer `buf` ≤ `dBufSize` = 8192 blocks of characters; decoded
+    leftover `out` ≤ the decoding of one such buffer; the framed decoder's
+    header and footer < 8192 bytes; the punctuated reader's two stashed
+    segments together ≤ max 4096 `dBufSize`.  And a `Read` never returns more
+    than the caller's buffer. -/
+theorem C13_decoder_state_bounded (par : Armor.Params) (he : par.enc.WF) (expect : Armor.Expect) :
+    (∀ src, DBounded par (newDecoder src)) ∧
+    (∀ (cap : Nat) (d : DState), DBounded par d →
+      DBounded par (dRead par expect cap d).2.2 ∧ (dRead par expect cap d).1.length ≤ cap) :=
+  ⟨dBounded_init par, fun cap d h => dRead_bounded par he expect cap d h⟩
+
+/-- `DBounded` spelled out -/
+theorem C13_decoder_bound_unfolds (par : Armor.Params) (d : DState) :
+    DBounded par d ↔
+      ((d.fil.f.p.nextSegment.length + d.fil.f.p.thisSegment.length ≤ max 4096 (dBufSize par.enc) ∧
+        d.fil.f.hdr.length < Armor.frameLim ∧ d.fil.f.ftr.length < Armor.frameLim) ∧
+       d.buf.length ≤ dBufSize par.enc ∧
+       d.out.length ≤ par.enc.decLen (dBufSize par.enc)) :=
+  Iff.rfl
+
+/-- **punctuatedReader**: with `B` any bound ≥ the caller's buffer (`max 4096
+    cap` for the reader's own 4096-byte reads and the caller's `cap`), one
+    `Read(p)` keeps `nextSegment` and `thisSegment` together within `B` bytes
+    and returns at most `cap` bytes; a fresh reader holds nothing.  (Data read
+    with the caller's `cap` may be stashed, hence `B ≥ cap`, not 4096.) -/
+theorem C13_punct_state_bounded (cap : Nat) (s : PState)
+    (h : s.nextSegment.length + s.thisSegment.length ≤ max 4096 cap) :
+    (pRead cap s).2.2.nextSegment.length + (pRead cap s).2.2.thisSegment.length ≤ max 4096 cap ∧
+    (pRead cap s).1.length ≤ cap ∧
+    (∀ src, ({ src := src } : PState).nextSegment.length + ({ src := src } : PState).thisSegment.length = 0) :=
+  let r := pRead_bounded (max 4096 cap) cap s h (Nat.le_max_right _ _)
+  ⟨r.1, r.2, fun _ => rfl⟩
+
+/-- the same for any bound `B ≥ cap` — the form that composes over calls with
+    different buffer sizes (all ≤ `B`) -/
+theorem C13_punct_state_bounded_any (B cap : Nat) (hc : cap ≤ B) (s : PState)
+    (h : s.nextSegment.length + s.thisSegment.length ≤ B) :
+    (pRead cap s).2.2.nextSegment.length + (pRead cap s).2.2.thisSegment.length ≤ B ∧ (pRead cap s).1.length ≤ cap :=
+  pRead_bounded B cap s h hc
+
+/-- **framedDecoderStream**: header and footer are collected up to, not
+    including, `frameLim` = 8192 bytes: a fresh stream satisfies, and every
+    `Read(p)` preserves, `hdr.length < frameLim ∧ ftr.length < frameLim`
+    (together with the bound of its punctuated reader, for any `B ≥ 4096, cap`) -/
+theorem C13_framed_state_bounded (par : Armor.Params) (expect : Armor.Expect) (B cap : Nat)
+    (h4 : 4096 ≤ B) (hc : cap ≤ B) (f : FState)
+    (hp : f.p.nextSegment.length + f.p.thisSegment.length ≤ B)
+    (hh : f.hdr.length < Armor.frameLim) (hf : f.ftr.length < Armor.frameLim) :
+    let f' := (fRead par expect cap f).2.2
+    (f'.p.nextSegment.length + f'.p.thisSegment.length ≤ B ∧
+     f'.hdr.length < Armor.frameLim ∧ f'.ftr.length < Armor.frameLim) ∧
+    (fRead par expect cap f).1.length ≤ cap ∧
+    (∀ src, ({ p := { src := src } } : FState).hdr.length < Armor.frameLim ∧
+            ({ p := { src := src } } : FState).ftr.length < Armor.frameLim) :=
+  let r := fRead_bounded par expect B cap h4 hc f ⟨hp, hh, hf⟩
+  ⟨r.1, r.2, fun src => (fBounded_init B src).2⟩
+
+/-- **chunkReader holds at most one chunk**: its only buffer is `prevChunk`
+    (empty in a fresh reader); after a `Read` — any chunker, any buffer size —
+    what is left pending is a suffix of what was pending before or of ONE chunk
+    that `getNextChunk` returned during the call; hence never longer than the
+    longest chunk the chunker hands out. -/
+theorem C13_chunk_reader_one_chunk {σ : Type} (next : σ → Bytes × Option RErr × σ) (cap fuel : Nat)
+    (s : CRState σ) (acc : Bytes) :
+    ((crRead next cap fuel s acc).2.2.prevChunk <:+ s.prevChunk ∨
+      ∃ σ1, (crRead next cap fuel s acc).2.2.prevChunk <:+ (next σ1).1) ∧
+    (∀ B, (∀ σ1, (next σ1).1.length ≤ B) → s.prevChunk.length ≤ B →
+      (crRead next cap fuel s acc).2.2.prevChunk.length ≤ B) ∧
+    (∀ σ0 : σ, ({ chunker := σ0 } : CRState σ).prevChunk = []) :=
+  ⟨crRead_one_chunk next cap fuel s acc, fun B hB hs => crRead_pending_le next B hB cap fuel s acc hs, fun _ => rfl⟩
+
+/-- the constants behind the bounds above, for the shipped base62 armor
+    (generated constants; this is a fact about two numbers, not about any
+    state — the state invariants are the four theorems above) -/
+theorem C13_reader_constants : Armor.frameLim = 8192 ∧ dBufSize Gen.base62Std = 8192 * 32 := by decide
 
 /-! ## non-vacuity -/
 -- "h.00.f." delivered in two fragments, the second one together with EOF, read
@@ -255,5 +467,14 @@ example :
     (r.1, r.2.1) = ([1, 2, 3, 4, 5, 6], some .eof) := by decide
 example : (([[1, 2, 3], [], [4]] : List Bytes).foldl Chunker.write ({ bs := 2 } : Chunker)).close v2 =
     [([1, 2], false), ([3, 4], true)] := by decide
+
+-- the state invariant holds initially and after a step, on a concrete decoder
+example : DBounded Armor.params62 (dRead Armor.params62 none 3 (newDecoder [([104, 46, 48], none)])).2.2 :=
+  ((C13_decoder_state_bounded Armor.params62 (Basex.Enc.wf_of_check _ (by decide)) none).2 3 _
+    ((C13_decoder_state_bounded Armor.params62 (Basex.Enc.wf_of_check _ (by decide)) none).1 _)).1
+-- the armor writer: three writes (one empty) of a 3-byte payload give the one-shot text
+example : (([[1], [], [2, 3]].foldl ArmState.write (ArmState.init Proofs.toyArm [72] [70])).close).out
+    = Armor.sealText Proofs.toyArm [72] [70] [1, 2, 3] :=
+  C13_armor_writer_independent Proofs.toyArm (Basex.Enc.wf_of_check _ (by decide)) (by decide) _ _ _
 
 end Saltpack.Props.C13
